@@ -36,7 +36,12 @@ EXPLANATION = (
     'R5 set_mode equals the reference permission table on all worlds; sanitize_permissions\' mode expression (row assignments composed '
     'symbolically) has the shape (0o777 if is_executable(path, no-follow) else 0o666) & ~umask and is_executable\'s mask folds to '
     'S_IXUSR|S_IXGRP|S_IXOTH; the per-kind loops pass the item\'s install_mode and the install umask; os.umask(install_umask) unless preserve. '
-    'Does NOT decide that InstallData matches the build definition, idempotence of a second install, symlink-escapes through '
+    'R8 (backend/backends.py) every component of a per-item tuple unpacked while install records are built is used, and the directory name '
+    'appended for install_subdir is the basename of the recorded, trimmed source path. All functions are first brought into a normal form '
+    '(loops over constant tuples unrolled, conditional callables and filter() desugared, named conditions / module constants / list-growth '
+    'spellings / small membership tests normalised); calls are bound by signature; findings need a closed world, else Undecided. '
+    'Does NOT decide: that the log of an --only-changed run still names the preserved files (they were not created by that run), validation of '
+    'install_mode owner/group values in the interpreter, that InstallData otherwise matches the build definition, idempotence beyond the remove-before-create clause, symlink-escapes through '
     'pre-existing links, `..` components of install paths, or what custom install scripts write.')
 ASSUMPTIONS = [
     'the effect classification of os/shutil/subprocess members in sa/rules/c11_util.py follows the Python library reference',
@@ -46,7 +51,7 @@ ASSUMPTIONS = [
 TECHNIQUE = ('who-may-call over a classified effect table + CFG reachability under three-valued guard atoms (K2/K1); must-rootedness over all '
              'bindings (def-use) with interprocedural parameter demands (K3); decision tables by path enumeration, compared with references on all '
              'worlds of their atoms and by symbolic shape of outcomes/effects after copy propagation, constants folded (K6/K5); strip-set algebra '
-             'of the reader\'s str-method chain against the writer\'s folded terminator (K11-like); no repository expression is evaluated on sample values')
+             'of the reader\'s str-method chain against the writer\'s folded terminator (K11-like); must-flow of unpacked item components and sanitiser flow in install-data generation (K3); source-to-source normal form first; no repository expression is evaluated on sample values')
 
 
 # =============================================================================================
